@@ -449,13 +449,13 @@ theorem world_borrow_below_limit {c : Ctx} {amt : Int} {o : Out} (h : World.borr
     suspends the HEALTH check, never the caps) -/
 theorem world_tx_every_borrow_respects_the_caps {w w' : WState} {tx : List TOp} (h : w.runTx tx = some w')
     {i ai bi signer : Nat} {amount : Int} (hi : tx[i]? = some (.ix (.borrow ai bi signer amount))) :
-    ∃ (wi : WState) (a : AcctV) (b : WBank) (o : Out), wi.accts[ai]? = some a ∧ wi.banks[bi]? = some b ∧
+    ∃ (wi : WState) (a : AcctV) (b : WBank) (o : Out), w.before tx i = some wi ∧ wi.accts[ai]? = some a ∧ wi.banks[bi]? = some b ∧
       World.borrow (wi.ctx a b signer b.v.liquidityVault 0) amount = .ok o ∧
       (∃ ta tl, assetAmount o.books o.books.sa = .ok ta ∧ liabAmount o.books o.books.sl = .ok tl ∧ tl ≤ ta) ∧
       (b.v.books.borrowLimit ≠ U64MAX → b.v.books.sl < o.books.sl →
         ∃ tot, liabAmount o.books o.books.sl = .ok tot ∧ tot < ofInt o.books.borrowLimit) := by
-  obtain ⟨wi, a, b, o, ha, hb, ho⟩ := tx_borrow_ran h hi
-  refine ⟨wi, a, b, o, ha, hb, ho, world_borrow_keeps_deposits_above_debt ho, ?_⟩
+  obtain ⟨wi, a, b, o, hbef, ha, hb, ho⟩ := tx_borrow_ran h hi
+  refine ⟨wi, a, b, o, hbef, ha, hb, ho, world_borrow_keeps_deposits_above_debt ho, ?_⟩
   intro hact hminted
   exact world_borrow_below_limit ho hact hminted
 
@@ -463,12 +463,12 @@ theorem world_tx_every_borrow_respects_the_caps {w w' : WState} {tx : List TOp} 
     a bank with an active deposit limit left total deposits strictly below the limit -/
 theorem world_tx_every_deposit_respects_the_limit {w w' : WState} {tx : List TOp} (h : w.runTx tx = some w')
     {i ai bi signer : Nat} {amount : Int} {upTo : Bool} (hi : tx[i]? = some (.ix (.deposit ai bi signer amount upTo))) :
-    ∃ (wi : WState) (a : AcctV) (b : WBank) (o : Out), wi.accts[ai]? = some a ∧ wi.banks[bi]? = some b ∧
+    ∃ (wi : WState) (a : AcctV) (b : WBank) (o : Out), w.before tx i = some wi ∧ wi.accts[ai]? = some a ∧ wi.banks[bi]? = some b ∧
       World.deposit (wi.ctx a b signer b.v.liquidityVault 0) amount upTo = .ok o ∧
       (b.v.books.depositLimit ≠ U64MAX → b.v.books.sa < o.books.sa →
         ∃ tot lim, assetAmount o.books o.books.sa = .ok tot ∧ depositLimitFx o.books = .ok lim ∧ tot < lim) := by
-  obtain ⟨wi, a, b, o, ha, hb, ho⟩ := tx_deposit_ran h hi
-  refine ⟨wi, a, b, o, ha, hb, ho, ?_⟩
+  obtain ⟨wi, a, b, o, hbef, ha, hb, ho⟩ := tx_deposit_ran h hi
+  refine ⟨wi, a, b, o, hbef, ha, hb, ho, ?_⟩
   intro hact hminted
   exact world_deposit_below_limit ho hact hminted
 
@@ -476,11 +476,11 @@ theorem world_tx_every_deposit_respects_the_limit {w w' : WState} {tx : List TOp
     liquidator's or the risk admin's inside a receivership bracket — left its bank with total deposits at least total debt -/
 theorem world_tx_every_withdrawal_keeps_deposits_above_debt {w w' : WState} {tx : List TOp} (h : w.runTx tx = some w')
     {i ai bi signer : Nat} {amount vault : Int} {all : Bool} (hi : tx[i]? = some (.ix (.withdraw ai bi signer amount all vault))) :
-    ∃ (wi : WState) (a : AcctV) (b : WBank) (o : Out), wi.accts[ai]? = some a ∧ wi.banks[bi]? = some b ∧
+    ∃ (wi : WState) (a : AcctV) (b : WBank) (o : Out), w.before tx i = some wi ∧ wi.accts[ai]? = some a ∧ wi.banks[bi]? = some b ∧
       World.withdraw (wi.ctx a b signer b.v.liquidityVault vault) amount all = .ok o ∧
       ∃ ta tl, assetAmount o.books o.books.sa = .ok ta ∧ liabAmount o.books o.books.sl = .ok tl ∧ tl ≤ ta := by
-  obtain ⟨wi, a, b, o, ha, hb, ho⟩ := tx_withdraw_ran h hi
-  exact ⟨wi, a, b, o, ha, hb, ho, world_withdraw_keeps_deposits_above_debt ho⟩
+  obtain ⟨wi, a, b, o, hbef, ha, hb, ho⟩ := tx_withdraw_ran h hi
+  exact ⟨wi, a, b, o, hbef, ha, hb, ho, world_withdraw_keeps_deposits_above_debt ho⟩
 
 end whole_instructions
 
